@@ -42,7 +42,7 @@ ResetState(a) ==
     /\ latest' = a.latest /\ final' = a.final
     /\ variant' = <<>> /\ txs' = <<>> /\ rcpt' = <<>> /\ armed' = {}
     /\ cfg' = [fin |-> a.fin, W |-> a.W] /\ pending' = {} /\ tried' = {} /\ pl' = a.pl /\ hq' = <<>>
-    /\ hs' = Nil /\ lq' = Nil /\ rs' = Nil /\ fwd' = {} /\ life' = <<>>
+    /\ hs' = Nil /\ lq' = Nil /\ rs' = Nil /\ pon' = FALSE /\ fwd' = {} /\ life' = <<>>
 
 \* ---- is the node's answer the one EvmChain prescribes?  (checks the harness, not the watcher)
 RcptAnswer(kind, tx) ==
@@ -58,7 +58,7 @@ NodeOK(ln) ==
       [] ln.ev = "R_Head"      -> a.ok = ~Fails("rhead") /\ (a.ok => a.n = HeadFor(a.tag))
       [] ln.ev = "H_Receipt"   -> LResp(a.resp) = RcptAnswer("hreceipt", a.tx)
       [] ln.ev = "R_Receipt"   -> LResp(a.resp) = RcptAnswer("rreceipt", a.tx)
-      [] ln.ev = "L_BlockTime" -> a.ok
+      [] ln.ev = "L_BlockTime" -> a.ok = ~Fails("ltime")
       [] ln.ev = "R_BlockTime" -> a.ok = ~Fails("rtime")
       [] OTHER -> TRUE
 
@@ -93,7 +93,9 @@ Apply(ln) ==
       [] ln.ev = "Arm"         -> E_Arm(a.kind)
       [] ln.ev = "Disarm"      -> E_Disarm(a.kind)
       [] ln.ev = "PushLog"     -> PushLog(a.tx, a.i, a.delivered)
-      [] ln.ev = "L_BlockTime" -> L_BlockTime(Blk(a.blk))
+      [] ln.ev = "L_BlockTime" -> IF a.ok THEN L_BlockTime(Blk(a.blk)) ELSE L_BlockTimeFail(Blk(a.blk))
+      [] ln.ev = "RunRestart"  -> RunRestart(a.tag) /\ a.pl = HeadFor(a.tag)
+      [] ln.ev = "Stall"       -> a.what = "poller" /\ ~PollDue /\ UNCHANGED vars   \* no poll although one is due: rejected
       [] ln.ev = "L_Insert"    -> L_Insert
       [] ln.ev = "B_Poll"      -> B_Poll(a.tag)
       [] ln.ev = "H_Head"      -> H_Head(a.n)
@@ -115,7 +117,7 @@ NextReset(i) ==
 
 POpt(x) == IF x = Nil THEN <<>> ELSE <<x>>
 PState == [cfg |-> cfg, latest |-> latest, final |-> final, rcpt |-> rcpt, armed |-> armed,
-           pending |-> pending, tried |-> tried, pl |-> pl, hq |-> hq, hs |-> POpt(hs), lq |-> POpt(lq), rs |-> POpt(rs)]
+           pending |-> pending, tried |-> tried, pon |-> pon, pl |-> pl, hq |-> hq, hs |-> POpt(hs), lq |-> POpt(lq), rs |-> POpt(rs)]
 
 Dead(why) ==
     /\ PrintT(<<"DEAD", ToJson([t |-> Trace[l].t, n |-> Trace[l].n, ev |-> Trace[l].ev, why |-> why, spec |-> PState, devs |-> rej])>>)
@@ -148,6 +150,7 @@ Resync ==
     /\ pending' = {e \in pending : Key(e) \in LKeys(Trace[l].s.pending)}
     /\ tried' = tried \cap LKeys(Trace[l].s.pending)
     /\ hs' = Nil
+    /\ pon' = IF LKeys(Trace[l].s.pending) = {} THEN FALSE ELSE pon
     /\ ph' = 1
     /\ UNCHANGED <<chain, cfg, pl, hq, lq, rs, fwd, life, l>>
 
